@@ -101,3 +101,6 @@ pub use graph_specs::{
 
 mod node;
 pub use node::Node;
+
+#[cfg(feature = "verif-hooks")]
+pub mod verif_hooks;
